@@ -360,6 +360,40 @@ func runC11(p *core.Program, r *core.Report) {
 			r.Check(uses(clause[core.G("pkg/types.TypeName")], nm), "R4", in, "TypeName goes to the namer", ts.Pos(), "d.Name(x)", "a TypeName argument is not rendered by the namer")
 			r.Check(uses(clause["string"], nm, core.G("pkg/types.ParseRef")), "R4", in, "a string is parsed as a reference and named", ts.Pos(), "ParseRef + d.Name", "a string argument is not parsed with ParseRef and rendered by the namer")
 			r.Check(uses(clause["go/types.Alias"], nm, core.G("pkg/types.ParseRef")), "R4", in, "an alias is referenced by name", ts.Pos(), "ParseRef(x.String()) + d.Name", "an alias argument is not referenced by its name through the namer")
+			// ... and nothing else: what the type arms yield is the type-literal printer's text, on every path (a shortcut
+			// that names a *types.Named through its object loses the type arguments of an instantiation and has no name
+			// for the predeclared error), and no further arm for a kind of go/types type stands in front of the
+			// types.Type arm except the alias arm
+			yv := yieldVars(p)
+			onlyTypeLit := func(cc ast.Node, what string) {
+				if cc == nil {
+					return
+				}
+				for _, c := range core.Calls(cc, true) {
+					v := core.VarOf(iinfo, c.Fun)
+					if v == nil || !yv[v] || len(c.Args) != 1 {
+						continue
+					}
+					a0, _ := core.Resolve(iinfo, in.Body, c.Args[0])
+					ac, isCall := ast.Unparen(a0).(*ast.CallExpr)
+					good := isCall && core.CalleeName(iinfo, ac) == tl
+					r.Check(good, "R4", in, what+" yields only the type-literal printer's text: "+core.ExprStr(c.Args[0]), c.Pos(), "yield(d.TypeLit(…))",
+						"the "+what+" arm of ID yields `"+core.ExprStr(c.Args[0])+"`, which does not come from the type-literal printer: a named type rendered through its object loses the type arguments of an instantiation (and the predeclared error has no package to name)")
+				}
+			}
+			onlyTypeLit(clause["reflect.Type"], "reflect.Type")
+			onlyTypeLit(clause["go/types.Type"], "types.Type")
+			typeIface, _ := types.Universe.Lookup("error").Type().Underlying().(*types.Interface)
+			_ = typeIface
+			for i, a := range disp.Arms {
+				n := core.NamedTypeName(a.Type)
+				if a.Type == nil || n == "go/types.Alias" || n == "go/types.Type" || i+1 >= order["go/types.Type"] || order["go/types.Type"] == 0 {
+					continue
+				}
+				if strings.HasPrefix(n, "go/types.") {
+					r.Bad("R4", in, "no arm takes a kind of types.Type away from the type-literal printer: case "+a.Type.String(), ts.Pos(), "an arm for "+a.Type.String()+" stands in front of the types.Type arm: types of that kind are no longer rendered by the type-literal printer (only the alias arm may do that, to reference the alias by name)")
+				}
+			}
 		}
 	}
 
